@@ -24,6 +24,12 @@ def families():
                      lambda r, a=a: np.exp(-a * r * r),
                      lambda k, a=a: (math.pi / a) ** 1.5 * np.exp(-k * k / (4 * a)),
                      (math.pi / a) ** 1.5))
+    for a in (0.7,):
+        # r^2 exp(-a r^2): changes sign in Fourier space, vanishes at the origin in real space
+        fams.append(('r2gaussian a=%g' % a,
+                     lambda r, a=a: r * r * np.exp(-a * r * r),
+                     lambda k, a=a: (math.pi / a) ** 1.5 * (1.5 / a - k * k / (4 * a * a)) * np.exp(-k * k / (4 * a)),
+                     (math.pi / a) ** 1.5 * 1.5 / a))
     for kap in (1.0, 2.0):
         fams.append(('yukawa kappa=%g' % kap,
                      lambda r, q=kap: np.exp(-q * r) / r,
@@ -49,6 +55,8 @@ def convergence(ctx, info, thorough):
     # two refinement ladders at fixed r_max: powers of two, and lengths 131 * 2^m (131 is prime, so
     # these lengths are not FFT-friendly)
     ladders = [[128, 256, 512, 1024] + ([2048] if thorough else []), [131, 262, 524, 1048]]
+    if thorough:        # other refinement ratios and lengths with mixed prime factors
+        ladders += [[100, 200, 400, 800, 1600], [150, 300, 600, 1200], [96, 192, 384, 768, 1536]]
     for ns in ladders:
         for fam in families():
             name = fam[0]
